@@ -84,6 +84,8 @@ def instance_states_step(s, o, frm, to):
                                        and ISM(s)[i].state == SupvisorsStates.OFF and ISM(s)[i].master_identifier == '')))
             and LOCAL(s) is LOCAL(o)
             and (master(s) == master(o) or master(s) == '')
+            and implies(master(s) != '' and master(s) in ost, master(s) in st and (
+                st[master(s)] == ost[master(s)] or st[master(s)] == SupvisorsInstanceStates.RUNNING))
             and forall(str, lambda i: implies(i in ISM(s) and ISM(s)[i] is ISM(o)[i] and i != LID(s),
                                               ISM(s)[i].master_identifier == ISM(o)[i].master_identifier)))
 
@@ -306,3 +308,34 @@ class ContextRunningIdentifiers:
 
     def modifies(self):
         return []
+
+
+@contract('context:Context.on_timer_event', props=[])
+class ContextOnTimerEvent:
+    """C07 owns it: silent instances become FAILED through the SupvisorsInstanceStatus.state setter"""
+    assumed = True
+    raises = ()
+
+    def modifies(self, event):
+        return [but_wiring(self)]
+
+    def post_step(self, old):
+        return instance_states_step(self, old.self,
+                                    (SupvisorsInstanceStates.CHECKING, SupvisorsInstanceStates.CHECKED,
+                                     SupvisorsInstanceStates.RUNNING), (SupvisorsInstanceStates.FAILED,))
+
+    def post_shape(self, old):
+        return implies(valid(old.self.supvisors) and coupled(old.self.supvisors),
+                       valid(self.supvisors) and coupled(self.supvisors))
+
+
+@contract('statemodes:StateModes.update', props=[])
+class StateModesUpdate:
+    """a peer's publication overwrites the fields of ITS entry only (payload well-formedness is C12 / C16's)"""
+    assumed = True
+    raises = ()
+
+    def modifies(self, payload):
+        return [field(self, 'state'), field(self, 'degraded_mode'), field(self, 'discovery_mode'),
+                field(self, 'master_identifier'), field(self, 'starting_jobs'), field(self, 'stopping_jobs'),
+                field(self, 'instance_states')]
